@@ -590,3 +590,14 @@ Definition c04_cal_sb (c : cfg) (t0 calib : N) (hist : list round_obs) (o : seen
     nanoseconds.  [ns]: the exact value; [secs], [nanos]: the resulting [Duration]. *)
 Definition c04_dur_sb (ns secs nanos : N) : bool :=
   (nanos <? 1000000000) && (secs * 1000000000 + nanos =? ns).
+
+(** [threads = ..] as the attribute macro converts it ([IntoThreads]): a scalar
+    [t] is the single count [t]; a list or range is its sorted set of values. *)
+Fixpoint thr_insert (x : N) (l : list N) : list N :=
+  match l with
+  | [] => [x]
+  | y :: r => if x <? y then x :: l else if x =? y then l else y :: thr_insert x r
+  end.
+Definition thr_norm (l : list N) : list N := fold_right thr_insert [] l.
+Definition c03_threads_sb (scalar : bool) (input out : list N) : bool :=
+  list_eqb out (if scalar then input else thr_norm input).
